@@ -161,7 +161,8 @@ pub fn lw_pool(quick: bool) -> Vec<LwSpec> {
     // 256 fragments of the packet are in flight at once, so fragment k is still unacknowledged when the acknowledgement of k + 256 arrives
     {
         let cfg = LwCfg { latency: 10, bw: [8_000_000, 8_000_000], rx_alloc: [2_000_000, 2_000_000], ..wide.clone() };
-        let ops: Vec<Op> = vec![send(0, 0, 0, Reliable, 300 * FRAG), send(300, 0, 0, Reliable, 299 * FRAG + 77), send(301, 0, 1, Reliable, 9)];
+        // (the receiver has sent a small packet of its own and so has an RTT estimate: its acknowledgements are not held back by a send rate still at the initial 1472 B/s)
+        let ops: Vec<Op> = vec![send(0, 0, 0, Reliable, 300 * FRAG), send(150, 1, 5, Reliable, 30), send(300, 0, 0, Reliable, 299 * FRAG + 77), send(301, 0, 1, Reliable, 9)];
         let s = Arc::new(ScriptInfo::new(ops));
         let mut env = env_live(300, 8);
         env.fates = &[Fate::Deliver, Fate::Drop]; env.deltas = &[20];
